@@ -97,6 +97,14 @@ def sessions(run):
             for v in values_for(op):
                 S.append(("crit%d/%s" % (f, op), pre + ["%s:%d" % (op, v), "brk"]))
     run.count("sessions:critical fill x boundary values", len(S) - n0)
+    # 2b. the same for the strings: every head width a string length can ask for (1, 2, 3 and 5 bytes) at the critical fill levels
+    n0 = len(S)
+    for f in crit + [1000, 2030, 2033]:
+        pre = fill_ops(f, 5)
+        for op in ("bsp", "tsp"):
+            for L in (0, 23, 24, 255, 256, 65535, 65536, 70001):
+                S.append(("critstr%d/%s%d" % (f, op, L), pre + ["%s:%d:%d" % (op, L, (f + L) % 256), "brk"]))
+    run.count("sessions:critical fill x string length classes (heads of 1/2/3/5 bytes)", len(S) - n0)
     # 3. all 2^8 values of the 8-bit overloads, all 2^16 of the 16-bit ones (packed, positions vary)
     n0 = len(S)
     for op, lo, hi in (("u8", 0, 256), ("i8", -128, 128)):
